@@ -22,16 +22,46 @@ REQUIRED_BUCKETS = (['shape:' + s for s in SHAPES] + ['api:configurable', 'api:r
                      'nonprefix-binding-present', 'string-prefix-trap', 'via:scoped-get', 'via:scope',
                      'expect:TypeError', 'expect:ok', 'entry:list', 'entry:none', 'entry:slash', 'history:round2+', 'history:rebind-existing',
                      'history:bind-new-after-call', 'history:scoped-call-left-by-BaseException', 'call:caller-value-with-hostile-eq',
-                     'history:consumer-mutated-bound-value', 'entry:derived', 'shape:decorated-with-shifted-positional-layout'])
+                     'history:consumer-mutated-bound-value', 'entry:derived', 'shape:decorated-with-shifted-positional-layout'] +
+                    # extension wave (audit gaps 1-8)
+                    ['call:falsy-positional-over-binding', 'call:falsy-keyword-over-binding', 'call:caller-None-over-binding',
+                     'layers:falsy-overrides-truthy', 'layers:truthy-overrides-falsy',
+                     'bind:bind_parameter-under-active-scope', 'bind:parse_config-under-active-scope', 'bind:under-the-scope-of-the-later-call',
+                     'history:rebind-through-parse_config-flat', 'history:rebind-through-parse_config-block', 'history:rebind-under-active-scope',
+                     'via:scoped-get-under-other-ambient-scope', 'via:scoped-ref', 'via:scoped-ref-under-other-ambient-scope', 'via:scoped-ref-evaluated',
+                     'history:second-call-under-other-scope', 'history:call-after-leaving-innermost-scope', 'history:call-after-clear_config',
+                     'history:bound-before-clear_config-default-after', 'entry:dotted-component', 'layers:dotted-scope-binding-applies',
+                     'dotted-vs-slash-trap'])
 ORACLE_COUNTERS = ['oracle_evals', 'calls_compared']
 ALPHA = ['a', 'b', 'c']
+DOTTED = ['a.b', 'c.d']          # scope components may contain periods (module-like names)
+# switches for generator features (rule 4: a feature that exposes a real defect of gin is switched off here, never hidden in the oracle)
+ENABLE_FALSY_CALLER_VALUES = True
+ENABLE_FALSY_BOUND_VALUES = True
+ENABLE_BIND_UNDER_ACTIVE_SCOPE = True
+ENABLE_AMBIENT_SCOPE_AROUND_SCOPED_ACCESS = True
+ENABLE_SCOPED_REFERENCES = True
+ENABLE_SECOND_CALLS = True
+ENABLE_REBIND_THROUGH_PARSE = True
+ENABLE_CLEAR_ROUNDS = True
+ENABLE_DOTTED_SCOPES = True
+N_FALSY = 8
+
+
+def falsy(i):
+  """A fresh falsy value (mutable ones are new objects every time)."""
+  return [None, 0, '', [], False, (), {}, 0.0][i % N_FALSY]
 
 
 def gen_scope_prog(rng):
   prog = []
   for _ in range(rng.choice([0, 1, 1, 2, 2, 3, 4])):
     k = rng.random()
-    if k < 0.55:
+    if ENABLE_DOTTED_SCOPES and rng.random() < 0.12:
+      d = rng.choice(DOTTED)
+      prog.append(rng.choice([['str', d], ['str', d + '/' + rng.choice(ALPHA)], ['str', rng.choice(ALPHA) + '/' + d], ['list', [d]],
+                              ['list', [d, rng.choice(ALPHA + DOTTED)]]]))
+    elif k < 0.55:
       prog.append(['str', rng.choice(ALPHA + ['ab'])])
     elif k < 0.75:
       prog.append(['str', '/'.join(rng.choice(ALPHA) for _ in range(rng.choice([2, 3])))])
@@ -71,16 +101,41 @@ def iter_cases(ctx, rng, n):
       m.enter(scope_arg(e, m.cur))
     active = m.cur
     via = 'scope'
-    if rng.random() < 0.2 and active:
+    k = rng.random()
+    if k < 0.2 and active:
       via = 'scoped-get'
+    elif k < 0.32 and active and ENABLE_SCOPED_REFERENCES:
+      via = 'scoped-ref'
+    # the scope that is active around a scoped get_configurable / scoped reference: must be irrelevant
+    ambient = None
+    if ENABLE_AMBIENT_SCOPE_AROUND_SCOPED_ACCESS and rng.random() < 0.6:
+      ambient = rng.choice(['c', 'b/a', 'a', ['c', 'a'], ['b'], 'zz'] + (['/'.join(active[:-1])] if len(active) > 1 else []))
     # binding scopes: prefixes of the active scope (likely), siblings, suffixes, string-prefix traps
     cands = ['/'.join(active[:k]) for k in range(len(active) + 1)]
     cands += ['/'.join(active[1:])] if len(active) > 1 else []
     cands += [s + 'c' for s in cands if s] + [s + '/a' for s in cands if s] + ['a', 'b', 'a/b', 'ab', 'b/a/b']
+    if ENABLE_DOTTED_SCOPES:
+      # 'a.b' is one component: neither 'a/b' nor 'a' is a prefix of it (and the other way round)
+      cands += ['a.b'] + [s.replace('.', '/') for s in cands if '.' in s] + [s.replace('/', '.', 1) for s in cands if '/' in s][:2]
+
+    def api_for(scope, apis):
+      # a period inside a scope name is not part of the config-file syntax for binding keys: those go through bind_parameter
+      return rng.choice(['str', 'tuple'] if '.' in scope else apis)
+
+    def extra(value_p, under_p):
+      x = {}
+      if ENABLE_FALSY_BOUND_VALUES and rng.random() < value_p:
+        x['v'] = rng.randrange(N_FALSY)
+      if ENABLE_BIND_UNDER_ACTIVE_SCOPE and rng.random() < under_p:
+        # the scope that is active while the binding is made: the later call's scope, a prefix, something else
+        x['under'] = rng.choice([list(active)] * 2 + ['c', 'a/b', ['b', 'a'], 'zz', 'a.b'] + cands[:len(active) + 1])
+        if not x['under']:
+          x['under'] = 'a'
+      return x
     bindings = []
     for b in bindable:
       for s in rng.sample(cands, min(len(cands), rng.choice([0, 1, 2, 3, 3, 4]))):
-        bindings.append([s, b, rng.choice(['str', 'tuple', 'text', 'block'])])
+        bindings.append([s, b, api_for(s, ['str', 'tuple', 'text', 'block']), extra(0.3, 0.3)])
     rng.shuffle(bindings)
     pos = probes.positional_names(spec)
     nP = rng.randrange(0, len(pos) + 1)
@@ -92,16 +147,31 @@ def iter_cases(ctx, rng, n):
       K.append(rng.choice(['x0', 'x9']))
     if rng.random() < 0.04 and nP and pos:
       K.append(pos[0])  # duplicate: TypeError expected from both
+    ref_eval = rng.random() < 0.6
+    if via == 'scoped-ref' and ref_eval and rng.random() < 0.5:
+      nP, K = 0, []      # a call that passes nothing: made by evaluating @scope/name() instead
+    # which of the caller's values are falsy (None, 0, '', [], False, (), {}, 0.0): [index among positionals | keyword name, which]
+    fal = {'pos': {}, 'kw': {}}
+    if ENABLE_FALSY_CALLER_VALUES:
+      fal['pos'] = {str(i): rng.randrange(N_FALSY) for i in range(nP) if rng.random() < 0.25}
+      fal['kw'] = {k: rng.randrange(N_FALSY) for k in K if rng.random() < 0.3}
     rounds = []
     for _ in range(rng.choice([0, 0, 1, 2])):
       rb = []
       for b in bindable:
         if rng.random() < 0.5:
           # re-bind / newly bind under a (usually shorter) prefix of the active scope, or elsewhere
-          rb.append([rng.choice(cands[:len(active) + 1] + cands[:max(1, len(active))] + ['a', 'zz']), b])
-      rounds.append({'rebinds': rb, 'prelude': rng.random() < 0.3})
+          sc = rng.choice(cands[:len(active) + 1] + cands[:max(1, len(active))] + ['a', 'zz'])
+          rb.append([sc, b, api_for(sc, ['tuple', 'tuple', 'str', 'text', 'block'] if ENABLE_REBIND_THROUGH_PARSE else ['tuple']), extra(0.3, 0.3)])
+      rounds.append({'rebinds': rb, 'prelude': rng.random() < 0.3, 'clear': ENABLE_CLEAR_ROUNDS and rng.random() < 0.25})
+    # a further call of the same probe under another scope once every block has been left; and one after leaving the innermost block
+    second = None
+    if ENABLE_SECOND_CALLS and rng.random() < 0.6:
+      second = rng.choice([active[:-1] + [rng.choice(ALPHA)], active[:max(0, len(active) - 1)], active[:1], [], active + ['a'],
+                           [c for c in rng.choice(cands).split('/') if c]])
     yield {'spec': spec, 'prog': prog, 'via': via, 'bindings': bindings, 'nP': nP, 'K': K,
-           'path': rng.choice(['direct', 'object', 'selector', 'short']), 'rounds': rounds}
+           'path': rng.choice(['direct', 'object', 'selector', 'short']), 'rounds': rounds, 'ambient': ambient, 'falsy': fal,
+           'second': second, 'call_after_exit': ENABLE_SECOND_CALLS and rng.random() < 0.6, 'ref_eval': ref_eval}
 
 
 def apply_binding(gin, p, scope, param, api, value):
@@ -187,6 +257,27 @@ def prelude(gin, bind=True):
     pass
 
 
+def bound_value(tag, x):
+  """The value of a binding: a one-element list (mutable: what the function receives is a fresh copy every call) or a falsy value."""
+  if x and x.get('v') is not None:
+    return falsy(x['v'])
+  return [tag]
+
+
+def bind_under(ctx, gin, p, scope, param, api, x, value, active, what):
+  """Makes one binding, possibly while some config_scope is open: the key's own scope decides where it lands, the open scope is irrelevant."""
+  under = (x or {}).get('under')
+  if not under:
+    apply_binding(gin, p, scope, param, api, value)
+    return
+  ctx.bucket('%s:%s-under-active-scope' % (what, 'bind_parameter' if api in ('str', 'tuple') else 'parse_config') if what == 'bind'
+             else 'history:rebind-under-active-scope')
+  with gin.config_scope(under):
+    if gin.current_scope() == active and active:
+      ctx.bucket('bind:under-the-scope-of-the-later-call')
+    apply_binding(gin, p, scope, param, api, value)
+
+
 def run_case(ctx, case):
   import gin
   if case.get('kind') == 'decorated-shift':
@@ -196,10 +287,16 @@ def run_case(ctx, case):
   p = probes.build(spec)
   ctx.bucket('shape:' + spec['shape'])
   ctx.bucket('api:' + ('register' if spec['shape'] == 'method' else ('external' if spec['shape'] in ('callable', 'boundmethod') else spec['api'])))
+  sm = models.ScopeModel()
+  for e in case['prog']:
+    sm.enter(scope_arg(e, sm.cur))
+  active = sm.cur
   model = {}
-  for scope, param, api in case['bindings']:
-    value = ['B|%s|%s' % (scope, param)]   # mutable: what the function receives is a fresh copy every call
-    apply_binding(gin, p, scope, param, api, value)
+  for bnd in case['bindings']:
+    scope, param, api = bnd[:3]
+    x = bnd[3] if len(bnd) > 3 else None
+    value = bound_value('B|%s|%s' % (scope, param), x)
+    bind_under(ctx, gin, p, scope, param, api, x, value, active, 'bind')
     model.setdefault((scope, p.selector), {})[param] = value
   call_round(ctx, case, p, model, 0)
   for ri, rnd in enumerate(case.get('rounds', [])):
@@ -207,15 +304,109 @@ def run_case(ctx, case):
     if rnd['prelude']:
       ctx.bucket('history:scoped-call-left-by-BaseException')
       prelude(gin)
-    for scope, param in rnd['rebinds']:
-      value = ['R%d|%s|%s' % (ri, scope, param)]
+    had = models.overlay(model, p.selector, active)
+    if rnd.get('clear'):
+      # everything bound so far is gone: the same wrapper must go back to the function's own defaults (no per-wrapper memory)
+      gin.clear_config()
+      model.clear()
+      ctx.bucket('history:call-after-clear_config')
+    for rb in rnd['rebinds']:
+      scope, param = rb[:2]
+      api = rb[2] if len(rb) > 2 else 'tuple'
+      x = rb[3] if len(rb) > 3 else None
+      value = bound_value('R%d|%s|%s' % (ri, scope, param), x)
       if param in model.get((scope, p.selector), {}):
         ctx.bucket('history:rebind-existing')
       else:
         ctx.bucket('history:bind-new-after-call')
-      gin.bind_parameter((scope, p.selector, param), value)
+      if api in ('text', 'block'):
+        ctx.bucket('history:rebind-through-parse_config-' + ('flat' if api == 'text' else 'block'))
+      bind_under(ctx, gin, p, scope, param, api, x, value, active, 'rebind')
       model.setdefault((scope, p.selector), {})[param] = value
+    if rnd.get('clear') and set(had) - set(models.overlay(model, p.selector, active)):
+      ctx.bucket('history:bound-before-clear_config-default-after')
     call_round(ctx, case, p, model, ri + 1)
+
+
+def caller_args(ctx, case, salt=0):
+  """The caller's values: objects that must arrive by identity, some with a hostile __eq__, some falsy."""
+  nP, Kn = case['nP'], case['K']
+  fal = case.get('falsy') or {'pos': {}, 'kw': {}}
+  P = [caller_value(('pos', i, salt), ctx.case_no + i) for i in range(nP)]
+  K = {k: caller_value(('kw', k, salt), ctx.case_no + j + 2) for j, k in enumerate(Kn)}
+  for i, fi in fal['pos'].items():
+    P[int(i)] = falsy(fi)
+  for k, fi in fal['kw'].items():
+    K[k] = falsy(fi)
+  return P, K
+
+
+def is_falsy_plain(v):
+  return not isinstance(v, CallerValue) and not v
+
+
+def expectation(p, spec, applicable, P, K):
+  pos = probes.positional_names(spec)
+  inj = models.injected(applicable, pos, len(P), K)
+  try:
+    return inj, p.twin(*P, **{**inj, **K}), None
+  except TypeError as e:
+    return inj, None, e
+
+
+def judge(ctx, case, p, active, applicable, P, K, inj, expect, expect_exc, got_exc, recs, key='reception-differs-from-model', where=''):
+  """Compares one call of the probe with the model.  `key` names the mechanism for the reception check."""
+  ctx.count('calls_compared')
+  if expect_exc is not None:
+    ctx.check(isinstance(got_exc, TypeError), 'expected-TypeError',
+              '%sCPython binder raises TypeError(%s) but gin call gave %r / %d records' % (where, expect_exc, got_exc, len(recs)))
+    return
+  if got_exc is not None:
+    ctx.check(False, 'unexpected-exception', '%scall raised %s: %s; expected reception %r' %
+              (where, type(got_exc).__name__, str(got_exc)[:300], expect))
+    return
+  if not ctx.check(len(recs) == 1, 'probe-run-count', '%sprobe body ran %d times' % (where, len(recs))):
+    return
+  r = recs[0]
+  ctx.check(list(r.scope) == active, 'scope-seen-by-probe', '%sprobe saw scope %r, model %r' % (where, r.scope, active))
+  got = r.received
+  pos = probes.positional_names(case['spec'])
+  from_caller = set(pos[:len(P)]) | set(K)
+  ok = set(got) == set(expect)
+  for name in expect:
+    if not ok:
+      break
+    e, g = expect[name], got.get(name)
+    if name == '*':
+      ok = len(e) == len(g) and all(same_value(a, b, True) for a, b in zip(e, g))
+    elif name == '**':
+      ok = set(e) == set(g) and all(same_value(e[k], g[k], k in K) for k in e)
+    else:
+      ok = same_value(e, g, name in from_caller)
+  ctx.check(ok, key,
+            '%sactive=%r received %r, model expects %r (applicable %r, positional %r, keywords %r)' % (where, active, got, expect, applicable, P, K))
+  # the probe now behaves like a function that modifies what Gin gave it: later calls must still see the bound values
+  for name, g in list(got.items()) + list((got.get('**') or {}).items()):
+    if type(g) is list and name not in ('*',):
+      g.append('MUTATED-BY-CONSUMER')
+      if name not in from_caller:
+        ctx.bucket('history:consumer-mutated-bound-value')
+
+
+def plain_call(ctx, case, p, model, active, key, where, salt):
+  """A further call of the same probe, made under whatever scope is active now (the model says: `active`)."""
+  import gin
+  P, K = caller_args(ctx, case, salt)
+  applicable = models.overlay(model, p.selector, active)
+  inj, expect, expect_exc = expectation(p, case['spec'], applicable, P, K)
+  mark = probes.RECORDER.mark()
+  got_exc = None
+  try:
+    probes.call_probe(p, P, K, case['path'])
+  except Exception as e:  # pylint: disable=broad-except
+    got_exc = e
+  recs = probes.RECORDER.since(mark, p.pid)
+  judge(ctx, case, p, active, applicable, P, K, inj, expect, expect_exc, got_exc, recs, key, where)
 
 
 def call_round(ctx, case, p, model, round_no):
@@ -235,7 +426,7 @@ def call_round(ctx, case, p, model, round_no):
       ctx.bucket('entry:' + ('slash' if e[0] == 'str' and '/' in e[1] else e[0]))
       if ei == len(case['prog']) - 1:
         # runs when the innermost block has been left and the enclosing ones are still active
-        st.callback(after_innermost_exit, ctx, gin, p, model, sm.cur)
+        st.callback(after_innermost_exit, ctx, gin, p, model, sm.cur, case)
       st.enter_context(gin.config_scope(arg))
       sm.enter(scope_arg(e, sm.cur))
     active = sm.cur
@@ -246,60 +437,102 @@ def call_round(ctx, case, p, model, round_no):
     ctx.check(teq(dict(sorted(gb.items())), dict(sorted(applicable.items()))), 'get_bindings-differs-from-overlay',
               'get_bindings under %r = %r, model %r' % (active, gb, applicable))
     exact = gin.get_bindings(p.selector, inherit_scopes=False)
-    ctx.check(exact == model.get(('/'.join(active), p.selector), {}), 'get_bindings-strict-differs',
+    ctx.check(teq(dict(sorted(exact.items())), dict(sorted(model.get(('/'.join(active), p.selector), {}).items()))), 'get_bindings-strict-differs',
               'strict get_bindings under %r = %r, model %r' % (active, exact, model.get(('/'.join(active), p.selector), {})))
     for (sc, _), d in model.items():
       for prm, v in d.items():
-        q = gin.query_parameter((sc + '/' if sc else '') + p.key_selector + '.' + prm)
-        ctx.check(q == v, 'query-differs', 'query %s/%s.%s = %r, model %r' % (sc, p.name, prm, q, v))
+        try:
+          q = gin.query_parameter((sc + '/' if sc else '') + p.key_selector + '.' + prm)
+        except ValueError as e:      # "has no bound parameters" / "no parameter named": the store does not hold what was bound
+          q = e
+        ctx.check(teq(q, v), 'query-differs', 'query %s/%s.%s = %r, model %r' % (sc, p.name, prm, q, v))
 
     pos = probes.positional_names(spec)
     nP, Kn = case['nP'], case['K']
-    P = [caller_value(('pos', i), ctx.case_no + i) for i in range(nP)]
-    K = {k: caller_value(('kw', k), ctx.case_no + j + 2) for j, k in enumerate(Kn)}
+    P, K = caller_args(ctx, case)
     if any(isinstance(v, (AlwaysEqual, EqNotBool)) for v in P + list(K.values())):
       ctx.bucket('call:caller-value-with-hostile-eq')
-    inj = models.injected(applicable, pos, nP, K)
-    try:
-      expect = p.twin(*P, **{**inj, **K})
-      expect_exc = None
-    except TypeError as e:
-      expect, expect_exc = None, e
+    inj, expect, expect_exc = expectation(p, spec, applicable, P, K)
     ctx.bucket('expect:' + ('TypeError' if expect_exc else 'ok'))
     mark = probes.RECORDER.mark()
     got_exc = None
+    via = case['via']
+    amb = case.get('ambient')
+    act = '/'.join(active)
+    other_ambient = bool(amb) and via != 'scope'
     try:
-      if case['via'] == 'scoped-get' and spec['shape'] != 'method':
+      if via == 'scoped-get' and spec['shape'] != 'method':
         ctx.bucket('via:scoped-get')
-        fn = gin.get_configurable('/'.join(active) + '/' + p.selector)
-        with gin.config_scope(None):  # ambient scope must not matter
+        fn = gin.get_configurable(act + '/' + p.selector)
+        with gin.config_scope(amb):  # ambient scope must not matter: the scope in the name replaces it
           fn(*P, **K)
-      elif case['via'] == 'scoped-get':
+      elif via == 'scoped-get':
         ctx.bucket('via:scoped-get')
-        kcls = gin.get_configurable('/'.join(active) + '/' + p.cls_selector)
-        with gin.config_scope(None):
+        kcls = gin.get_configurable(act + '/' + p.cls_selector)
+        with gin.config_scope(amb):
           inst = kcls()
           getattr(inst, p.name)(*P, **K)
+      elif via == 'scoped-ref':
+        # a scoped reference (@a/b/name, or @a/b/name() when the call passes nothing) held by another configurable's binding and
+        # obtained / evaluated while a different scope is active: the reference's own scope replaces the ambient one
+        ctx.bucket('via:scoped-ref')
+        evaluated = bool(case.get('ref_eval')) and not P and not K and spec['shape'] != 'method'
+        target = p.cls_selector if spec['shape'] == 'method' else p.selector
+        gin.parse_config('c1ref/c1.c1cons.x = @%s/%s%s' % (act, target, '()' if evaluated else ''))
+        with gin.config_scope(amb):
+          with gin.config_scope(['c1ref'] + gin.current_scope()):
+            held = gin.get_configurable('c1.c1cons')()     # evaluates the reference under c1ref/<ambient>
+          if evaluated:
+            ctx.bucket('via:scoped-ref-evaluated')
+          elif spec['shape'] == 'method':
+            getattr(held(), p.name)(*P, **K)
+          else:
+            held(*P, **K)
       else:
         ctx.bucket('via:scope')
         probes.call_probe(p, P, K, case['path'])
     except Exception as e:  # pylint: disable=broad-except
       got_exc = e
+    if other_ambient:
+      ctx.bucket('via:%s-under-other-ambient-scope' % via)
     recs = probes.RECORDER.since(mark, p.pid)
 
   # buckets
   ctx.bucket('depth:%d' % min(len(active), 4))
-  nlayers = sum(1 for i in range(len(active) + 1) if ('/'.join(active[:i]), p.selector) in model)
+  layers = [i for i in range(len(active) + 1) if ('/'.join(active[:i]), p.selector) in model]
+  nlayers = len(layers)
   if nlayers >= 2:
     ctx.bucket('layers:2+')
   if nlayers >= 3:
     ctx.bucket('layers:3+')
-  act = '/'.join(active)
+  if any('.' in c for c in active):
+    ctx.bucket('entry:dotted-component')
+    if any('.' in '/'.join(active[:i]) for i in layers):
+      ctx.bucket('layers:dotted-scope-binding-applies')
   for (sc, _) in model:
     if sc and not (act == sc or act.startswith(sc + '/')):
       ctx.bucket('nonprefix-binding-present')
       if act.startswith(sc) or sc.startswith(act):
         ctx.bucket('string-prefix-trap')
+      if act and sc != act and ('.' in sc or '.' in act) and (
+          (act + '/').replace('.', '/').startswith(sc.replace('.', '/') + '/') or (sc + '/').replace('.', '/').startswith(act.replace('.', '/') + '/')):
+        ctx.bucket('dotted-vs-slash-trap')
+  for n in inj:
+    vals = [model[('/'.join(active[:i]), p.selector)][n] for i in layers if n in model[('/'.join(active[:i]), p.selector)]]
+    if len(vals) >= 2 and not vals[-1] and any(vals[:-1]):
+      ctx.bucket('layers:falsy-overrides-truthy')
+    if len(vals) >= 2 and vals[-1] and not all(vals[:-1]):
+      ctx.bucket('layers:truthy-overrides-falsy')
+  for i, v in enumerate(P[:len(pos)]):
+    if is_falsy_plain(v) and pos[i] in applicable:
+      ctx.bucket('call:falsy-positional-over-binding')
+      if v is None:
+        ctx.bucket('call:caller-None-over-binding')
+  for k, v in K.items():
+    if is_falsy_plain(v) and k in applicable:
+      ctx.bucket('call:falsy-keyword-over-binding')
+      if v is None:
+        ctx.bucket('call:caller-None-over-binding')
   if spec['kwonly']:
     ctx.bucket('sig:kwonly')
   if spec['varargs']:
@@ -318,51 +551,33 @@ def call_round(ctx, case, p, model, round_no):
     ctx.bucket('call:omitted-default')
   ctx.fp(spec['shape'], spec['api'], len(spec['pos']), len(spec['dflt']), spec['varargs'], len(spec['kwonly']),
          spec['varkw'], bool(spec.get('allow')), bool(spec.get('deny')), len(active), nlayers, nP, len(K),
-         sorted(inj), case['via'], case['path'], bool(expect_exc), round_no)
+         sorted(inj), via, case['path'], bool(expect_exc), round_no, other_ambient,
+         sorted(n for n in inj if not applicable[n]), sorted(k for k, v in K.items() if is_falsy_plain(v)))
   ctx.sample({'spec': spec, 'active': active, 'bindings': sorted(model and [list(k) + [sorted(v)] for k, v in model.items()]),
               'nP': nP, 'K': Kn, 'expected': repr(expect)[:300]})
 
-  ctx.count('calls_compared')
-  if expect_exc is not None:
-    ctx.check(isinstance(got_exc, TypeError), 'expected-TypeError',
-              'CPython binder raises TypeError(%s) but gin call gave %r / %d records' % (expect_exc, got_exc, len(recs)))
-    return
-  if got_exc is not None:
-    ctx.check(False, 'unexpected-exception', 'call raised %s: %s; expected reception %r' %
-              (type(got_exc).__name__, str(got_exc)[:300], expect))
-    return
-  if not ctx.check(len(recs) == 1, 'probe-run-count', 'probe body ran %d times' % len(recs)):
-    return
-  r = recs[0]
-  ctx.check(list(r.scope) == active, 'scope-seen-by-probe', 'probe saw scope %r, model %r' % (r.scope, active))
-  got = r.received
-  ok = set(got) == set(expect)
-  for name in expect:
-    if not ok:
-      break
-    e, g = expect[name], got.get(name)
-    if name == '*':
-      ok = len(e) == len(g) and all(a is b for a, b in zip(e, g))
-    elif name == '**':
-      ok = set(e) == set(g) and all(same_value(e[k], g[k]) for k in e)
-    else:
-      ok = same_value(e, g)
-  ctx.check(ok, 'reception-differs-from-model',
-            'active=%r received %r, model expects %r (applicable %r, nP=%d, K=%r)' % (active, got, expect, applicable, nP, Kn))
-  # the probe now behaves like a function that modifies what Gin gave it: later rounds must still see the bound values
-  for name, g in list(got.items()) + list((got.get('**') or {}).items()):
-    if type(g) is list and name not in ('*',):
-      g.append('MUTATED-BY-CONSUMER')
-      ctx.bucket('history:consumer-mutated-bound-value')
+  judge(ctx, case, p, active, applicable, P, K, inj, expect, expect_exc, got_exc, recs)
+
+  # the same probe once more, under another scope, after every block of the program has been left (nothing may be remembered per wrapper)
+  second = case.get('second')
+  if second is not None:
+    ctx.bucket('history:second-call-under-other-scope')
+    with gin.config_scope(list(second)):
+      plain_call(ctx, case, p, model, list(second), 'reception-differs-in-second-call-under-other-scope',
+                 'second call under %r after a call under %r: ' % (second, active), 1)
 
 
-def after_innermost_exit(ctx, gin, p, model, enclosing):
+def after_innermost_exit(ctx, gin, p, model, enclosing, case=None):
   ctx.count('checks_after_leaving_innermost_scope')
   ctx.check(gin.current_scope() == enclosing, 'scope-model-mismatch', 'after leaving the innermost block current_scope %r != model %r' % (gin.current_scope(), enclosing))
   gb = gin.get_bindings(p.selector)
   want = models.overlay(model, p.selector, enclosing)
   ctx.check(teq(dict(sorted(gb.items())), dict(sorted(want.items()))), 'get_bindings-differs-from-overlay',
             'after leaving the innermost block: get_bindings under %r = %r, model %r' % (enclosing, gb, want))
+  if case is not None and case.get('call_after_exit'):
+    ctx.bucket('history:call-after-leaving-innermost-scope')
+    plain_call(ctx, case, p, model, list(enclosing), 'reception-differs-after-leaving-innermost-scope',
+               'call after leaving the innermost block (enclosing scope %r): ' % (enclosing,), 2)
 
 
 def shift_decorator(fn):
@@ -429,9 +644,12 @@ def run_decorated_shift(ctx, case):
   ctx.fp('shift', npos, tuple(sorted(K)), tuple(sorted(bound)), case['scope'], case['bscope'], case['api'])
 
 
-def same_value(e, g):
+def same_value(e, g, from_caller=False):
   if isinstance(e, CallerValue):
     return e is g                      # caller values: the very object
+  if from_caller:
+    # "reaches the function unchanged": mutable values by identity, immutable ones (None, 0, '', (), False, 0.0) as the same typed value
+    return e is g if type(e) in (list, dict) else teq(e, g)
   if type(e) is list:
     return teq(e, g) and e is not g    # bound (mutable) values: equal, but never the object held by the configuration
   return teq(e, g)
